@@ -153,7 +153,16 @@ def build(cfg, mon):
             async def rewrite(request, context, error):
                 return JsonRpcError(7404, 'rewritten', data={'was': error.code})
             handlers[-32601] = [rewrite]
-    d = pjrpc.server.AsyncDispatcher(middlewares=middlewares, error_handlers=handlers, concurrent_batch=cfg['concurrent'])
+    if cfg.get('via') == 'aiohttp-app':
+        # the dispatcher is the one the aiohttp integration builds from the options given to Application(...) / add_endpoint(...)
+        from pjrpc.server.integration import aiohttp as ia
+        app = ia.Application('/api', middlewares=middlewares, error_handlers=handlers, concurrent_batch=cfg['concurrent'])
+        d = app.dispatcher
+    elif cfg.get('via') == 'aiohttp-endpoint':
+        from pjrpc.server.integration import aiohttp as ia
+        d = ia.Application('/api').add_endpoint('/v2', middlewares=middlewares, error_handlers=handlers, concurrent_batch=cfg['concurrent'])
+    else:
+        d = pjrpc.server.AsyncDispatcher(middlewares=middlewares, error_handlers=handlers, concurrent_batch=cfg['concurrent'])
     for kind in KINDS:
         if kind not in ('v1ok', 'ibroken'):
             d.add(make(kind), name=kind)
@@ -311,6 +320,14 @@ def gen_cases(ctx):
         for n in range(1, n_main + 1):
             for elems in itertools.product(alphabet, repeat=n):
                 yield dict(part='main', concurrent=conc, mw='none', eh='none', elems=elems)
+    # the same through the dispatchers the aiohttp integration builds from its keyword options
+    for via in ('aiohttp-app', 'aiohttp-endpoint'):
+        for conc in (True, False):
+            for n in (2, 3):
+                for elems in itertools.product([('g1ok', True), ('g1perr', True), ('g1ok', False), ('unknown', True)], repeat=n):
+                    yield dict(part='main', concurrent=conc, mw='none', eh='none', elems=elems, via=via)
+                    if n == 2:
+                        yield dict(part='stack', concurrent=conc, mw='before', eh='gate', elems=elems, via=via)
     four = [('g1ok', True), ('g2ok', True), ('g1perr', True), ('g1ok', False), ('plain', True), ('v1ok', True)]
     for conc in (True, False):
         for elems in itertools.product(alphabet if not ctx.quick else four, repeat=4):
